@@ -125,3 +125,76 @@ def install_match_log():
     arpeggio.Match.parse = parse
     _installed['match_log'] = ml
     return ml
+
+
+class MemoLog:
+    """Arpeggio's packrat cache is keyed by (expression, position): remember the whitespace context at store
+    time and compare it at hit time."""
+
+    def __init__(self):
+        self.enabled = False
+        self.shared_nonroot = set()
+        self.clear()
+
+    def clear(self):
+        self.store_ctx = {}
+        self.hits = 0
+        self.hits_same_ctx = 0
+        self.hits_other_ctx = 0
+        self.hits_other_ctx_shared_nonroot = 0
+        self.stores = 0
+
+
+def install_memo_log():
+    if 'memo_log' in _installed:
+        return _installed['memo_log']
+    import arpeggio
+    mlog = MemoLog()
+    orig = arpeggio.ParsingExpression.parse
+
+    @functools.wraps(orig)
+    def parse(self, parser):
+        if not (mlog.enabled and parser.memoization):
+            return orig(self, parser)
+        pos = parser.position
+        key = (id(self), pos)
+        cnow = (parser.skipws, parser.ws, parser.eolterm)
+        cache = self._result_cache
+        if pos in cache:
+            mlog.hits += 1
+            st = mlog.store_ctx.get(key)
+            if st is None or st == cnow:
+                mlog.hits_same_ctx += 1
+            else:
+                mlog.hits_other_ctx += 1
+                if id(self) in mlog.shared_nonroot:
+                    mlog.hits_other_ctx_shared_nonroot += 1
+            return orig(self, parser)
+        try:
+            return orig(self, parser)
+        finally:
+            if pos in cache and key not in mlog.store_ctx:
+                mlog.store_ctx[key] = cnow
+                mlog.stores += 1
+    arpeggio.ParsingExpression.parse = parse
+    _installed['memo_log'] = mlog
+    return mlog
+
+
+def shared_nonroot_expressions(parser_model):
+    """ids of parser expressions that are not named rules but are referenced from more than one parent
+    (textX builds a tree below every rule; only rule expressions themselves are shared)"""
+    parents = {}
+    objs = {}
+    seen = set()
+    todo = [parser_model]
+    while todo:
+        e = todo.pop()
+        if id(e) in seen:
+            continue
+        seen.add(id(e))
+        for c in getattr(e, 'nodes', []) or []:
+            parents.setdefault(id(c), set()).add(id(e))
+            objs[id(c)] = c
+            todo.append(c)
+    return {k for k, ps in parents.items() if len(ps) > 1 and not getattr(objs[k], 'root', False)}
